@@ -1,5 +1,6 @@
 ----------------------------- MODULE VerifyHistory_MC -----------------------------
 EXTENDS VerifyHistory, Json
+HistPairsNone == {}
 HistPairsRot == {<<"rotVia", "pool">>}      \* how the pool is configured x which roots it lists: the pool-ownership histories
 ExportCase == (k = 1) => PrintT(<<"CASE", ToJson([fault |-> fault, shared |-> shared, mid |-> mid, hist |-> hist,
                                                   worlds |-> [T |-> Twin(fault), W |-> fault, B |-> WorldOf("B", fault)]])>>)
